@@ -584,8 +584,16 @@ def match_candidates_sample(
         cost_matrix_np = cost_matrix.numpy()
         cost_matrix_np[np.isnan(cost_matrix_np)] = np.inf
 
-        # Match.
-        match_src_inds, match_dst_inds = linear_sum_assignment(cost_matrix_np)
+        # Match. Candidates without a valid score (NaN, e.g. a zero-length line between
+        # coincident peaks) must never be matched and must not make the problem infeasible.
+        is_valid = np.isfinite(cost_matrix_np)
+        matching_cost = cost_matrix_np
+        if not is_valid.all():
+            big = np.abs(cost_matrix_np[is_valid]).sum() + 1.0 if is_valid.any() else 1.0
+            matching_cost = np.where(is_valid, cost_matrix_np, big)
+        match_src_inds, match_dst_inds = linear_sum_assignment(matching_cost)
+        keep = is_valid[match_src_inds, match_dst_inds]
+        match_src_inds, match_dst_inds = match_src_inds[keep], match_dst_inds[keep]
 
         # Pull out matched scores from the numpy cost matrix.
         match_line_scores_k = -cost_matrix_np[
